@@ -104,7 +104,7 @@ def _optimise_operator(op):
         elif isnode(op):
             nodes.append((op, active_node, left))
             isleaf = False
-        if isleaf:
+        if isleaf and active_node is not None:
             leaves.add((active_node, left))
 
 
